@@ -2,7 +2,7 @@
    followed by Print Assumptions.  [O] is an arbitrary property package + solver; [contracts O] is
    what is assumed about it (homogeneity of H and S in mol, H(0) = 0, 'L'/'S' use the models of 'l'/'s', and: a
    returned temperature satisfies the equation that was to be solved). *)
-From V Require Import Common.NumFacts C02.Model C02.Proofs C02.ProofsDeep.
+From V Require Import Common.NumFacts C02.Model C02.ModelX C02.Proofs C02.ProofsDeep C02.ProofsX.
 Open Scope Q_scope.
 
 (* ---------------------------------------------------------------- mixing *)
@@ -517,4 +517,104 @@ Example C02_compat_nonvacuous :
 Proof.
   split; [reflexivity|]. split; [reflexivity|]. split; [|reflexivity].
   simpl. repeat constructor; simpl; intuition discriminate.
+Qed.
+
+(* ---------------------------------------------------------------- round 3: pressure and frame of the extended mixing,
+   conserve_phases=True, non-negative flows *)
+Theorem C02_mix_x_pressure : forall O st r others Q0 st' ins s',
+  contracts O -> Forall wfs st ->
+  mix_from_x O st r others Q0 = Ok st' ->
+  streams_of st others <> [] ->
+  sget_all st (streams_of st others) = Ok ins ->
+  sget st' r = Ok s' ->
+  (forall s, In s ins -> sP s' <= sP s) /\ exists s, In s ins /\ sP s = sP s'.
+Proof. exact mix_x_pressure. Qed.
+Print Assumptions C02_mix_x_pressure.
+Theorem C02_mix_x_frame : forall O st r others Q0 st',
+  contracts O -> Forall wfs st ->
+  mix_from_x O st r others Q0 = Ok st' ->
+  length st' = length st /\ forall k, k <> r -> nth_error st' k = nth_error st k.
+Proof. exact mix_x_frame. Qed.
+Print Assumptions C02_mix_x_frame.
+(* mix_from(..., conserve_phases=True): the same balance (exact form), the same pressure rule, nothing else touched *)
+Theorem C02_mix_cp_energy : forall O st r others Q0 st' ins s',
+  contracts O -> Forall wfs st ->
+  mix_from_cp O st r others Q0 = Ok st' ->
+  streams_of st others <> [] ->
+  sget_all st (streams_of st others) = Ok ins ->
+  sget st' r = Ok s' ->
+  getH O s' == (if qzerob (total s') then 0 else qsum (map (getH O) ins) + (Q0 + heats others)).
+Proof. exact mix_cp_energy. Qed.
+Print Assumptions C02_mix_cp_energy.
+Theorem C02_mix_cp_pressure : forall O st r others Q0 st' ins s',
+  contracts O -> Forall wfs st ->
+  mix_from_cp O st r others Q0 = Ok st' ->
+  streams_of st others <> [] ->
+  sget_all st (streams_of st others) = Ok ins ->
+  sget st' r = Ok s' ->
+  (forall s, In s ins -> sP s' <= sP s) /\ exists s, In s ins /\ sP s = sP s'.
+Proof. exact mix_cp_pressure. Qed.
+Print Assumptions C02_mix_cp_pressure.
+Theorem C02_mix_cp_frame : forall O st r others Q0 st',
+  contracts O -> Forall wfs st ->
+  mix_from_cp O st r others Q0 = Ok st' ->
+  length st' = length st /\ forall k, k <> r -> nth_error st' k = nth_error st k.
+Proof. exact mix_cp_frame. Qed.
+Print Assumptions C02_mix_cp_frame.
+(* non-negative flows: a stream the code calls non-empty (not isempty()) has a positive total flow, so the balance of a
+   result with non-negative flows needs only the test the code itself makes *)
+Theorem C02_nonneg_nonempty : forall s, nonneg s -> isempty s = false -> 0 < total s.
+Proof. exact nonneg_nonempty. Qed.
+Print Assumptions C02_nonneg_nonempty.
+Theorem C02_mix_x_energy_nonneg : forall O st r others Q0 st' ins s',
+  contracts O -> Forall wfs st ->
+  mix_from_x O st r others Q0 = Ok st' ->
+  streams_of st others <> [] ->
+  sget_all st (streams_of st others) = Ok ins ->
+  sget st' r = Ok s' ->
+  nonneg s' -> isempty s' = false ->
+  getH O s' == qsum (map (getH O) ins) + (Q0 + heats others).
+Proof. exact mix_x_energy_nonneg. Qed.
+Print Assumptions C02_mix_x_energy_nonneg.
+
+(* conserve_phases=True with a liquid and a gas inlet: the single-phase receiver becomes a gas/liquid MultiStream (no
+   solver failure needed), the balance holds with the heat, P is the lower pressure *)
+Example C02_mix_cp_nonvacuous :
+  Forall wfs exSt /\
+  exists st' s', mix_from_cp exO exSt 3 [IStream 0; IStream 1] 512 = Ok st' /\ sget st' 3 = Ok s' /\
+                 multi s' = true /\ phases s' = [3%nat; 4%nat] /\ nonneg s' /\ isempty s' = false /\
+                 getH exO s' == getH exO exA + getH exO exB + 512 /\ sP s' == 101325 /\
+                 nth_error st' 0 = Some exA /\ nth_error st' 1 = Some exB.
+Proof.
+  split; [repeat constructor; simpl; try lia; intros F; simpl in F; intuition discriminate|].
+  eexists; eexists. split; [vm_compute; reflexivity|]. split; [vm_compute; reflexivity|].
+  split; [reflexivity|]. split; [reflexivity|].
+  split; [repeat constructor; simpl; discriminate|]. split; [reflexivity|].
+  split; [vm_compute; reflexivity|]. split; [vm_compute; reflexivity|]. split; reflexivity.
+Qed.
+
+(* the material step of Stream.mix_from (ChemicalIndexer / MaterialIndexer.mix_from, any receiver class, any phase sets,
+   with or without phase expansion): the receiver's total flow is the sum of the inlets' total flows ... *)
+Theorem C02_imol_mix_material : forall self ins s2 n,
+  wfs self -> Forall (wfn n) ins -> ncomp self = n ->
+  imol_mix self ins = Ok s2 -> total s2 == qsum (map total ins).
+Proof. exact imol_mix_total. Qed.
+Print Assumptions C02_imol_mix_material.
+(* ... hence positive when the inlets' flows are non-negative and one inlet is non-empty: the hypothesis `total <> 0`
+   of the balance is derived for the receiver as imol.mix_from leaves it *)
+Theorem C02_imol_mix_nonempty : forall self ins s2 n,
+  wfs self -> Forall (wfn n) ins -> ncomp self = n ->
+  Forall nonneg ins -> Exists (fun s => isempty s = false) ins ->
+  imol_mix self ins = Ok s2 -> 0 < total s2.
+Proof. exact imol_mix_nonempty. Qed.
+Print Assumptions C02_imol_mix_nonempty.
+Example C02_imol_mix_nonvacuous :
+  wfs exM /\ Forall (wfn 3) [exA; exGS] /\ ncomp exM = 3%nat /\ Forall nonneg [exA; exGS] /\
+  Exists (fun s => isempty s = false) [exA; exGS] /\
+  exists s2, imol_mix exM [exA; exGS] = Ok s2 /\ phases s2 = [3%nat; 4%nat; 5%nat] /\ total s2 == 8.
+Proof.
+  split; [split; [simpl; lia|repeat constructor; simpl; intuition discriminate]|].
+  split; [repeat constructor|]. split; [reflexivity|].
+  split; [repeat constructor; simpl; discriminate|]. split; [left; reflexivity|].
+  eexists. split; [vm_compute; reflexivity|]. split; [reflexivity|vm_compute; reflexivity].
 Qed.
